@@ -64,7 +64,7 @@ pub(super) fn handle_prev_state<'i>(
                 .map_err(UncatchableError::from)?;
 
             verifier::verify_call(
-                argument_hash.as_ref().unwrap(),
+                require_argument_hash(argument_hash)?,
                 tetraplet,
                 &service_result_aggregate.argument_hash,
                 &current_tetraplet,
@@ -91,7 +91,7 @@ pub(super) fn handle_prev_state<'i>(
                 Some(call_result) => {
                     update_state_with_service_result(
                         tetraplet.clone(),
-                        argument_hash.expect("Result for joinable error").clone(),
+                        require_argument_hash(argument_hash)?.clone(),
                         output,
                         call_result,
                         exec_ctx,
@@ -122,7 +122,7 @@ pub(super) fn handle_prev_state<'i>(
 
             populate_context_from_data(
                 value.clone(),
-                argument_hash.as_ref().unwrap(),
+                require_argument_hash(argument_hash)?,
                 tetraplet.clone(),
                 met_result.trace_pos,
                 met_result.source,
@@ -143,6 +143,17 @@ pub(super) fn handle_prev_state<'i>(
             Ok(StateDescriptor::executed())
         }
     }
+}
+
+/// The argument hash is absent while some call argument can't be resolved yet. A correct interpreter
+/// records a result or a request with a call id only for calls with resolved arguments, so data that
+/// carries such a state here is corrupted and must be rejected instead of panicking.
+fn require_argument_hash(argument_hash: Option<&Rc<str>>) -> Result<&Rc<str>, UncatchableError> {
+    argument_hash.ok_or_else(|| UncatchableError::InstructionParametersMismatch {
+        param: "call argument_hash",
+        expected_value: "<call arguments are not resolved yet>".to_owned(),
+        stored_value: "<a state of a call with resolved arguments>".to_owned(),
+    })
 }
 
 use super::call_result_setter::*;
